@@ -915,6 +915,17 @@ func (rc *RelationConstraint) match(ctx context.Context, s *search, pn blob.Ref,
 
 		var bm camtypes.BlobMeta
 		bm, err = s.blobMeta(ctx, relRef)
+		if errors.Is(err, os.ErrNotExist) {
+			// The edge names a blob we do not have (yet): it cannot
+			// match anything, but it must not fail the whole search.
+			err = nil
+			anyBad = true
+			if rc.All != nil {
+				return false // fail fast
+			}
+			lastChecked = relRef
+			return true
+		}
 		if err != nil {
 			return false
 		}
